@@ -1,0 +1,46 @@
+package sio
+
+import "github.com/karagenc/socket.io-go/internal/sync"
+
+// orderedRunner runs functions one at a time, in the order they were added.
+//
+// The packets of a socket are dispatched with it: when each packet is handled on a
+// goroutine of its own, the handlers are entered in whatever order the scheduler picks,
+// not in the order the events were sent in.
+//
+// There is no permanent goroutine: one is started when a function is added while none
+// is running, and it returns when there is nothing left to run.
+type orderedRunner struct {
+	mu      sync.Mutex
+	queue   []func()
+	running bool
+}
+
+func (r *orderedRunner) add(f func()) {
+	r.mu.Lock()
+	r.queue = append(r.queue, f)
+	if r.running {
+		r.mu.Unlock()
+		return
+	}
+	r.running = true
+	r.mu.Unlock()
+	go r.run()
+}
+
+func (r *orderedRunner) run() {
+	for {
+		r.mu.Lock()
+		if len(r.queue) == 0 {
+			r.queue = nil
+			r.running = false
+			r.mu.Unlock()
+			return
+		}
+		f := r.queue[0]
+		r.queue[0] = nil
+		r.queue = r.queue[1:]
+		r.mu.Unlock()
+		f()
+	}
+}
